@@ -93,7 +93,11 @@ impl MultiPeerBackend for SubSocketBackend {
             .collect();
 
         for message in subs_msgs {
-            send_queue.send(Message::Message(message)).await.unwrap();
+            if send_queue.send(Message::Message(message)).await.is_err() {
+                // The connection failed while the current subscriptions were being
+                // announced: drop it instead of registering a dead peer (or panicking).
+                return;
+            }
         }
 
         self.peers
